@@ -102,8 +102,18 @@ func (r *Runner) Run(wl Workload) error {
 						return fmt.Errorf("step %d Open before retry: %w", step, err)
 					}
 				}
-				if err2 := r.call(step, "StoreLogs", func() error { return r.W.StoreLogs(logs) }); err2 != nil {
-					return fmt.Errorf("step %d StoreLogs failed (%v) and its retry too: %w", step, err, err2)
+				// after a restart the failed batch may have been recovered (its bytes were written, only
+				// the fsync failed): then there is nothing to retry and the next append goes on from there
+				recovered := false
+				if wl.RetryReopen {
+					if last, lerr := r.W.LastIndex(); lerr == nil && last == logs[len(logs)-1].Index {
+						recovered = true
+					}
+				}
+				if !recovered {
+					if err2 := r.call(step, "StoreLogs", func() error { return r.W.StoreLogs(logs) }); err2 != nil {
+						return fmt.Errorf("step %d StoreLogs failed (%v) and its retry too: %w", step, err, err2)
+					}
 				}
 			}
 			r.M.Append(logs)
